@@ -193,6 +193,9 @@ def run_impl(p):
     def f():
         cells, vpool = _pools(p)
         ra = RaggedArray(cells.copy(), list(p["lens"]))
+        if not p.get("big"):
+            # the target of the assignment is sometimes itself a RESULT (see gens.derive_ra)
+            ra = gens.derive_ra(ra, gens.DERIVATIONS[(p.get("vseed", 0) + p.get("variant", 0)) % len(gens.DERIVATIONS)])
         if p.get("selfval"):
             i = p["idx"]["r"]["i"]
             val = _self_value(p, ra.ravel(), lambda j: ra[j])
